@@ -42,10 +42,20 @@ def run(chk, repo, tier):
     from .c20 import helper_rules as _helper_rules
     from .common import Remap as _Remap
     _helper_rules(_Remap(chk, {'C20-d': 'C07-d'}), repo)
+    # the window a plane's phasor is cut to (_plane_slice) is the bounding box util.boundary reports: rows from the row
+    # profile, columns from the column profile
+    from .c20 import boundary_axis_rule
+    boundary_axis_rule(_Remap(chk, {'C20-e': 'C07-d'}), repo)
     chk.clause('C07-e', 'wavelength unchanged, focal length forwarded, Pupil hands over its focal length after delegating', 4)
     chk.clause('C07-f', 'a plane with default attributes is the identity (phasor folds to 1)', 1)
     chk.clause('C07-g', 'inconsistent pixel scales are refused (both components compared)', 1)
     chk.clause('C07-h', 'a new wavefront is the unit plane wave; an empty wavefront has no fields', 2)
+    # the pixel scale the refusal compares is the one the plane reports: after rescale / resample it is the scale its arrays
+    # are sampled at on both axes, and the window the phasor is cut to follows the new mask
+    from . import c17 as _c17
+    nd = list(chk.not_decided)
+    _c17.run(_Remap(chk, {'C17-a': 'C07-g', 'C17-d': 'C07-d'}), repo, tier)
+    chk.not_decided[:] = nd
     chk.not_decided += ['numerical values of the field']
 
     from .extra_rules import wavefront_ctor_rules
